@@ -13,7 +13,40 @@ def observe(name):
     orig_assemble = reactor.SMILESReaktor.assemble_chains
     orig_react = reactor.SMILESReaktor.react
 
+    def view_of(self):
+        m = self.monomer
+        x = m.x
+        nc = int(np.count_nonzero(x[:, 0] == 6))
+        elems = []
+        for p in range(0, nc + 2):
+            try:
+                idx = m.find_oxygen(p)
+                sym = m.structure.GetAtomWithIdx(idx).GetSymbol()
+                elems.append(sym[:1] if sym in ("O", "N", "C") else "X")
+            except Exception:
+                elems.append(None)
+        try:
+            if sum(x[:, 2] & 0b1) == 0:
+                ur = int(np.max(x[x[:, 0] == 6, 1]).item())
+            else:
+                c_id = np.max(x[(x[:, 0] == 6) & (x[:, 2] & 0b1).astype(bool), 1]).item()
+                c_id = np.where(x[:, 1] == c_id)[0].item()
+                children = np.where(np.array(m.adjacency[c_id, :] == 1) & (x[:, 0] == 6) & (1 - x[:, 2] & 0b1))[0].tolist()
+                while len(children) != 0:
+                    c_id = int(children[0])
+                    children = np.where(np.array(m.adjacency[c_id, :] == 1) & (x[:, 0] == 6) & (1 - x[:, 2] & 0b1) & (x[:, 1] > x[c_id, 1]))[0].tolist()
+                ur = int(x[c_id, 1])
+        except Exception:
+            ur = 0
+        return {"name": m.get_name(), "ncarbon": nc, "elemAt": elems, "ringC": int(self.ring_c), "uronic": ur}
+
     def assemble(self):
+        # every call = the end of one round of react(): the residue as the round saw it, and the side-chain table it filled
+        if rec.get("in_react"):
+            try:
+                rec.setdefault("rounds", []).append({"view": view_of(self), "chains": [[a, b] for a, b in self.side_chains]})
+            except Exception as e:
+                rec["rounds_broken"] = type(e).__name__
         if "chains" not in rec:
             m = self.monomer
             x = m.x
@@ -64,8 +97,11 @@ def observe(name):
         return orig_assemble(self)
 
     def react(self, names, types):
-        if "mods" not in rec:
+        first = "mods" not in rec
+        if first:
             rec["mods"] = [n for n, t in zip(names, types) if t == GlycanLexer.MOD]
+            rec["recipe_len"] = len(names)
+            rec["in_react"] = True
         try:
             r = orig_react(self, names, types)
             rec.setdefault("full", bool(r[1]))
@@ -73,6 +109,9 @@ def observe(name):
         except Exception as e:
             rec.setdefault("exc", type(e).__name__)
             raise
+        finally:
+            if first:
+                rec["in_react"] = False
     reactor.SMILESReaktor.assemble_chains = assemble
     reactor.SMILESReaktor.react = react
     try:
@@ -120,6 +159,37 @@ def run(rep, tier, driver, names):
             if bad <= 3:
                 rep.broken.append("reactor model side_chains differ on %r: model %r vs code %r" % (nm, [c for c in a["chains"] if c != ["", ""]], [c for c in o["chains"] if c != ["", ""]]))
     rep.extra["reactor_model"] = stats
+    # all rounds of react(): side_chains of every round and the returned `full` flag (C10) against the Model's loop
+    lreqs, lkeep = [], []
+    for nm, o in zip(names, obs):
+        if o.get("rounds") and "mods" in o and "full" in o and "exc" not in o and "rounds_broken" not in o:
+            lreqs.append({"op": "react", "views": [r["view"] for r in o["rounds"]], "mods": o["mods"], "recipe_len": o["recipe_len"]})
+            lkeep.append((nm, o))
+    lans = driver.ask_many(lreqs)
+    lst = {"residues": 0, "unmodelled": 0, "agree": 0, "two_or_more_rounds": 0, "full_false": 0, "model_error": 0}
+    lbad = 0
+    for (nm, o), a in zip(lkeep, lans):
+        lst["residues"] += 1
+        if a.get("kind") == "unmodelled":
+            lst["unmodelled"] += 1
+            continue
+        if a.get("kind") != "ok":
+            lst["model_error"] += 1
+            lbad += 1
+            if lbad <= 3:
+                rep.broken.append("reactor loop model predicts %s for %r but react() returned" % (a.get("what"), nm))
+            continue
+        lst["two_or_more_rounds"] += len(o["rounds"]) > 1
+        lst["full_false"] += not o["full"]
+        if a["rounds"] == [r["chains"] for r in o["rounds"]] and a["full"] == o["full"]:
+            lst["agree"] += 1
+        else:
+            lbad += 1
+            if lbad <= 3:
+                rep.broken.append("reactor loop model differs on %r: full model %r code %r; rounds model %r code %r" % (
+                    nm, a.get("full"), o["full"], [[c for c in r if c != ["", ""]] for r in a["rounds"]],
+                    [[c for c in r["chains"] if c != ["", ""]] for r in o["rounds"]]))
+    rep.extra["reactor_loop_model"] = lst
     # the string half of assemble_chains: Model text against the code's new residue SMILES, and the graft certificate
     areqs, akeep = [], []
     for nm, o in zip(names, obs):
